@@ -569,6 +569,151 @@ def check_C19(c):
                          "values stay below 2^31 (TLC integers)"]
 
 
+def conc_module(writeset, nprocs, proglen):
+    """MC_conc.tla generated from the write-sets MEASURED on the real code (hook events of every operation of the
+    read-only alphabet run alone): the binding of spec/Conc.tla to the implementation."""
+    shared = sorted({w[1] for ws in writeset.values() for w in ws if w[1] != "?"} | {"M"})
+    classes = {}
+    for op, ws in sorted(writeset.items()):
+        steps = ['<<"rd", "M">>', '<<"get", 1>>']
+        val = 0
+        for w in ws:
+            x = w[1] if w[1] != "?" else "M"
+            val = 0 if w[2].endswith(":UT") else 1
+            steps.append('<<"wr", "%s", %d>>' % (x, val))
+            steps.append('<<"rd", "%s">>' % x)
+        steps += ['<<"put", 1>>', '<<"rd", "M">>']
+        classes.setdefault("<<" + ", ".join(steps) + ">>", []).append(op)
+    reps = {v[0]: k for k, v in classes.items()}      # one representative operation per distinct step list
+    names = sorted(reps)
+    rec = ", ".join('%s |-> %s' % (n, reps[n]) for n in names)
+    progs = set()
+    import itertools
+    for L in range(1, proglen + 1):
+        for t in itertools.product(names, repeat=L):
+            progs.add("<<" + ", ".join('"%s"' % x for x in t) + ">>")
+    text = """---- MODULE MC_conc ----
+EXTENDS Conc
+MCProcs == 1..%d
+MCShared == {%s}
+MCOpSteps == [%s]
+MCProgramSet == {%s}
+====
+""" % (nprocs, ", ".join('"%s"' % x for x in shared), rec, ", ".join(sorted(progs)))
+    return text, classes
+
+
+def check_C18(c):
+    q = c.quick
+    # (1) write-set conformance: what each read-only operation writes to SHARED operands, measured with the hooks
+    plain = build_harness(c.scr, tags=("verif",), cmd="conc")
+    p = subprocess.run([plain, "-mode", "writeset"], capture_output=True, text=True, env=GOENV, timeout=600)
+    if p.returncode != 0:
+        raise Infra("conc writeset failed: " + p.stderr[-2000:])
+    writeset = json.loads(p.stdout.strip().splitlines()[-1])
+    # (2) the interleavings of the model built from those measurements
+    text, classes = conc_module(writeset, 2 if q else 3, 2)
+    wd = c.scr.path("conc")
+    os.makedirs(wd, exist_ok=True)
+    with open(os.path.join(SPEC, "MC_conc.tla.generated"), "w") as f:
+        pass
+    os.remove(os.path.join(SPEC, "MC_conc.tla.generated"))
+    gen = c.scr.path("MC_conc.tla")
+    with open(gen, "w") as f:
+        f.write(text)
+    cfg = c.scr.path("MC_conc.cfg")
+    with open(cfg, "w") as f:
+        f.write("SPECIFICATION Spec\nCONSTANTS\n  Procs <- MCProcs\n  Shared <- MCShared\n  OpSteps <- MCOpSteps\n  ProgramSet <- MCProgramSet\n"
+                "INVARIANTS SharedNeverWritten NoReadDuringForeignWrite ResultsSequential\nCHECK_DEADLOCK FALSE\n")
+    tw = c.scr.path("tlc-conc")
+    os.makedirs(tw, exist_ok=True)
+    for fn in os.listdir(SPEC):
+        if fn.endswith(".tla"):
+            shutil.copy(os.path.join(SPEC, fn), tw)
+    shutil.copy(gen, tw)
+    shutil.copy(cfg, tw)
+    env = dict(os.environ)
+    env.pop("JAVA_TOOL_OPTIONS", None)
+    r = subprocess.run(["java", "-Xmx4g", "-cp", TLA_CP, "tlc2.TLC", "-workers", str(NPROC), "-metadir", os.path.join(tw, "md"),
+                        "-config", "MC_conc.cfg", "MC_conc.tla"], cwd=tw, capture_output=True, text=True, env=env, timeout=900)
+    m = re.search(r"(\d+) states generated, (\d+) distinct states found", r.stdout)
+    if not m:
+        raise Infra("TLC on MC_conc produced no state count:\n" + r.stdout[-2000:])
+    c.rep.transitions += int(m.group(1))
+    c.rep.states += int(m.group(2))
+    writers = {op: ws for op, ws in writeset.items() if ws}
+    c.rep.parts.append({"conc_model": "MC_conc generated from measured write-sets", "operations": len(writeset),
+                        "step_list_classes": {k: v for k, v in classes.items()}, "tlc_states": int(m.group(2)),
+                        "operations_that_write_shared_operands": writers})
+    outdir = os.path.join(OUT, c.pid)
+    violated = re.search(r"Invariant (\w+) is violated", r.stdout)
+    if violated or writers:
+        # the verdict comes from the real code: the hooks recorded a write to a shared operand
+        for op, ws in writers.items():
+            c.rep.divs.append({"cmd": "conc", "div": {"case": "writeset", "fam": "conc", "dt": "float64", "pal": "-", "cfg": "default", "step": 0,
+                               "op": op, "kind": "shared-write",
+                               "detail": "running %s alone wrote the metadata of shared operand(s): %s; TLC on the model built from these "
+                                         "measurements: %s" % (op, ws[:4], "invariant %s violated" % violated.group(1) if violated else "no invariant violated"),
+                               "path": op, "tags": []}, "case": {"writeset": ws}})
+    elif "No error has been found" not in r.stdout:
+        raise Infra("TLC on MC_conc did not complete:\n" + r.stdout[-2000:])
+    # (3) monitoring under the race detector: randomly generated programs and the pairwise stress of the alphabet
+    race = build_harness(c.scr, tags=("verif",), cmd="conc", race=True)
+    runs = []
+    for procs in (1, 2, 4, 16):
+        runs.append(["-mode", "monitor", "-g", str(2 + (c.seed + procs) % 7 if q else 16), "-n", "30" if q else "80", "-rounds", "6" if q else "40",
+                     "-procs", str(procs), "-seed", str(c.seed * 13 + procs)])
+    runs.append(["-mode", "stress", "-g", "3" if q else "4", "-n", "8" if q else "20", "-procs", "4", "-seed", str(c.seed)])
+    if not q:
+        runs.append(["-mode", "stress", "-g", "8", "-n", "12", "-procs", "16", "-seed", str(c.seed + 1)])
+    for args in runs:
+        env2 = dict(GOENV, GORACE="halt_on_error=0 exitcode=0 history_size=3")
+        pr = subprocess.run([race] + args, capture_output=True, text=True, env=env2, timeout=3000)
+        out = pr.stdout + pr.stderr
+        if pr.returncode not in (0,) and "WARNING: DATA RACE" not in out and "PANIC op=" not in out:
+            raise Infra("conc monitor failed (exit %d): %s" % (pr.returncode, out[-2000:]))
+        m2 = re.search(r"(monitor|stress): .*nondeterministic=(\d+)", out)
+        nrace = out.count("WARNING: DATA RACE")
+        if not m2 and not nrace:
+            raise Infra("conc monitor produced no summary: " + out[-2000:])
+        nd = int(m2.group(2)) if m2 else 0
+        nd += out.count("PANIC op=")
+        c.rep.execs += 1
+        c.rep.calls += 1
+        c.rep.nontrivial += 1
+        c.rep.parts.append({"race_monitor": " ".join(args), "data_races": nrace, "nondeterministic_results": nd, "summary": m2.group(0) if m2 else "(aborted)"})
+        log("conc %s: races=%d nondeterministic=%d" % (" ".join(args), nrace, nd))
+        if nrace:
+            blocks = out.split("WARNING: DATA RACE")[1:]
+            seen = set()
+            for b in blocks:
+                frames = re.findall(r"gorgonia\.org/tensor[\w./()*]*", b)
+                sig = tuple(frames[:4])
+                if sig in seen:
+                    continue
+                seen.add(sig)
+                c.rep.divs.append({"cmd": "conc", "args": args, "div": {"case": "race", "fam": "conc", "dt": "float64", "pal": "-", "cfg": "race",
+                                   "step": 0, "op": "race", "kind": "data-race", "detail": " <- ".join(frames[:8]), "path": " ".join(args), "tags": []},
+                                   "case": {"report": b[:3000]}})
+        if nd:
+            lines = [l for l in out.splitlines() if l.startswith(("NONDETERMINISTIC", "SHARED-CHANGED", "PANIC op="))]
+            c.rep.divs.append({"cmd": "conc", "args": args, "div": {"case": "nondet", "fam": "conc", "dt": "float64", "pal": "-", "cfg": "race",
+                               "step": 0, "op": "result", "kind": "nondeterministic", "detail": "; ".join(lines[:3])[:800], "path": " ".join(args), "tags": []},
+                               "case": {"lines": lines[:20]}})
+    c.rep.samples = [{"write_sets_measured": writeset}, {"generated_module": text[:1500]}]
+    c.rep.exhaustive = False
+    c.rep.rule = ("(1) every operation of a 21-operation read-only alphabet (element access, slicing, iteration, safe arithmetic and "
+                  "comparison, reductions, products incl. the dispatching Dot, cloning, materialising, formatting, repeat/concat, a private "
+                  "write chain) is run ALONE on shared tensors {contiguous, lazily transposed, sliced view, vectors} with the metadata hooks "
+                  "on, and its writes to shared operands are recorded; (2) spec/Conc.tla is instantiated with exactly these measured step "
+                  "lists (MC_conc, generated) and TLC explores every interleaving of 2-3 goroutines x programs of <=2 operations, checking "
+                  "SharedNeverWritten, NoReadDuringForeignWrite and ResultsSequential; (3) 2-16 goroutines run seeded random programs over "
+                  "the shared tensors plus private ones under the race detector with GOMAXPROCS in {1,2,4,16} and injected yields, every "
+                  "result compared with the result of the same program run alone; plus a pairwise stress of all 231 operation pairs")
+    c.rep.assumptions = ["that the code has no shared accesses other than the hooked metadata writes is observed by the Go race detector, not proved",
+                         "goroutines that write a shared tensor are outside the property"]
+
+
 def mask_consts(q, mode):
     suffix = "-q" if q else "-t"
     if mode == "iter":
@@ -627,7 +772,7 @@ def check_C05(c):
     c.rep.assumptions = ["Coord() after exhaustion is not specified and not compared", "the masked multi-iterator's validity stepping is outside the statement"]
 
 
-CHECKS = {"C01": check_C01, "C02": check_C02, "C03": check_C03, "C04": check_C04, "C13": check_C13, "C06": check_C06, "C07": check_C07, "C11": check_C11, "C12": check_C12, "C08": check_C08, "C09": check_C09, "C10": check_C10, "C05": check_C05, "C15": check_C15, "C14": check_C14, "C16": check_C16, "C20": check_C20, "C17": check_C17, "C19": check_C19}
+CHECKS = {"C01": check_C01, "C02": check_C02, "C03": check_C03, "C04": check_C04, "C13": check_C13, "C06": check_C06, "C07": check_C07, "C11": check_C11, "C12": check_C12, "C08": check_C08, "C09": check_C09, "C10": check_C10, "C05": check_C05, "C15": check_C15, "C14": check_C14, "C16": check_C16, "C20": check_C20, "C17": check_C17, "C19": check_C19, "C18": check_C18}
 
 HOOK_COMMITS = []
 NOT_YET = {}
@@ -704,6 +849,10 @@ LEVELS = {
             "technique": "trace validation: random operation histories recorded from the real library (every live tensor observed after every call, pool hooks, caller slices) checked by TLC against spec/Trace.tla",
             "text": "model checking of recorded behaviours: every line of every recorded history must be a step of the specification and the observation of ALL live tensors must equal the specification's state, so a corruption of a tensor other than the destination, of a caller's slice, or a pool double-return is rejected at the line where it happens",
             "note": "randomised histories (seeded), not exhaustive; integer-valued data; inputs of listed findings are not generated"},
+    "C18": {"ref": "DESIGN.md 4 C18",
+            "technique": "spec/Conc.tla instantiated with write-sets measured on the real code (hooks), all interleavings explored by TLC; race-detector monitoring of seeded concurrent programs against sequential results",
+            "text": "model checking of interleavings for a model whose per-operation shared accesses are measured from the implementation (write-set conformance), plus exploration: seeded concurrent programs and a pairwise stress of the read-only alphabet under the Go race detector with results compared to the sequential run",
+            "note": "interleavings exhaustive for 2-3 goroutines x <=2 operations in the model; the race detector observes, it does not prove"},
     "C01": {"ref": "DESIGN.md 4 C01",
             "technique": "TLC-enumerated behaviours of the TLA+ tensor machine (MC_addr) replayed on the real library",
             "text": "bounded exhaustive model checking: TLC enumerates every shape/constructor/layout in bounds and the complete coordinate->cell table of each; every table entry is executed (At and SetAt) on the real tensor for every element type, with a full snapshot of all storage around each write",
